@@ -1,7 +1,7 @@
 """C01 — script functions mean the same eagerly, as a graph, and as Python."""
 import re
 
-MODULES = ["contracts.c01_analysis", "contracts.c01_converter", "contracts.c11_eager"]
+MODULES = ["contracts.c01_analysis", "contracts.c01_converter", "contracts.c11_eager", "contracts.c01_operators"]
 
 
 def INCLUDE(name):
@@ -70,8 +70,63 @@ sys.exit(1 if bad else 0)
 '''
 
 
+OPERATOR_REPLAY = '''
+import sys
+import numpy as np
+from onnxscript import script, FLOAT, INT64
+from onnxscript import opset18 as op
+CASE = %r
+
+def run_graph(f, args):
+    m = f.to_model_proto()
+    try:
+        import onnxruntime as ort
+        s = ort.InferenceSession(m.SerializeToString(), providers=["CPUExecutionProvider"])
+        return s.run(None, {i.name: a for i, a in zip(m.graph.input, args)})[0]
+    except ImportError:
+        from onnx.reference import ReferenceEvaluator
+        return ReferenceEvaluator(m).run(None, {i.name: a for i, a in zip(m.graph.input, args)})[0]
+
+xf = np.array([-7.5, 5.5, 7.0], dtype=np.float32); yf = np.array([2.0, 2.0, -3.0], dtype=np.float32)
+xi = np.array([-7, 5, 7], dtype=np.int64); yi = np.array([2, 2, -3], dtype=np.int64)
+dt, _x, opsym, rk = CASE.split()
+x = xf if dt == "float32" else xi
+ann = "FLOAT" if dt == "float32" else "INT64"
+rhs = {"tensor": "y", "int": "2", "float": "2.5"}[rk]
+if rk == "tensor":
+    src = f"@script(default_opset=op)\\ndef f(x: {ann}[None], y: {ann}[None]):\\n    return x {opsym} y\\n"
+    args = (x, yf if dt == "float32" else yi)
+else:
+    src = f"@script(default_opset=op)\\ndef f(x: {ann}[None]):\\n    return x {opsym} {rhs}\\n"
+    args = (x,)
+import tempfile, importlib.util, os
+d = tempfile.mkdtemp()
+path = os.path.join(d, "opcase.py")
+open(path, "w").write("from onnxscript import script, FLOAT, INT64\\nfrom onnxscript import opset18 as op\\n" + src)
+spec = importlib.util.spec_from_file_location("opcase", path); mod = importlib.util.module_from_spec(spec); sys.modules["opcase"] = mod; spec.loader.exec_module(mod)
+f = mod.f
+try:
+    e = np.asarray(f(*args))
+    es = e.tolist()
+except Exception as ex:
+    e, es = None, f"raises {type(ex).__name__}"
+try:
+    g = np.asarray(run_graph(f, args))
+    gs = g.tolist()
+except Exception as ex:
+    g, gs = None, f"fails at run time ({type(ex).__name__}: {str(ex).splitlines()[0][:100]})"
+same = e is not None and g is not None and e.shape == g.shape and np.array_equal(e, g)
+if not same:
+    print(f"{CASE} with x={x.tolist()}: eager gives {es}, the converted graph gives {gs}")
+    sys.exit(1)
+sys.exit(0)
+'''
+
+
 def replay(ob):
     name = ob["name"]
+    if name.startswith("C01.operators.converter_and_eager") and "[" in name:
+        return OPERATOR_REPLAY % name[name.index("[") + 1:-1]
     if name.startswith("C11."):
         from props import C11
         return C11.replay(ob)
